@@ -50,6 +50,15 @@ CHECKS = {
              "and input integrity compared with a Python specification.",
         note="specifications are mine, written from the prelude's comments and names; runner output rendering is trusted",
         design="4/C17"),
+    "C18": dict(
+        engine="hypothesis-runner+libfuzzer",
+        category="exploration",
+        technique="round-trip property testing (Hypothesis value trees, structural comparison in C++) and coverage-guided fuzzing of from_json with an in-target round-trip oracle; nesting enumeration",
+        text="Generated JSON-able value trees must satisfy from_json(to_json(v)) == v; arbitrary bytes into from_json must return or throw "
+             "std::exception, and accepted texts must satisfy the second round-trip law (floats to 1e-6); deep nesting is enumerated up to 10^6 "
+             "under ASan and under a 1 MiB stack in the g++ -O2 build.",
+        note="trusts the C++ structural comparison (common/json_equiv.hpp) and ASan; non-finite numbers excluded and counted",
+        design="4/C18"),
 }
 
 PENDING_REASON = "check not built yet in this round (planned, see DESIGN.md section 4); not claimed until its machinery exists and is calibrated"
